@@ -1781,7 +1781,17 @@ class GlyphComponent(object):
         # this TT feature.
         if hasattr(self, "transform"):
             [[xx, xy], [yx, yy]] = self.transform
-            trans = (xx, xy, yx, yy, self.x, self.y)
+            x, y = self.x, self.y
+            # same choice as in Glyph.getCoordinates()
+            flags = getattr(self, "flags", 0)
+            apple_way = flags & SCALED_COMPONENT_OFFSET
+            ms_way = flags & UNSCALED_COMPONENT_OFFSET
+            if apple_way and not ms_way or (
+                not (apple_way or ms_way) and SCALE_COMPONENT_OFFSET_DEFAULT
+            ):
+                # the Apple way: the component offset is scaled too
+                x, y = x * xx + y * yx, x * xy + y * yy
+            trans = (xx, xy, yx, yy, x, y)
         else:
             trans = (1, 0, 0, 1, self.x, self.y)
         return self.glyphName, trans
